@@ -61,6 +61,19 @@
     __CPROVER_assert(__CPROVER_same_object(p, base), "re-anchor is the identity: returned pointer lies in its buffer"); \
     __CPROVER_ssize_t cqv_ro = __CPROVER_POINTER_OFFSET(p) - __CPROVER_POINTER_OFFSET(base); p = (base) + cqv_ro; }
 
+/* reach canaries of carquet_snappy_compress by input class of the job: CQV_CLASS 1 = src_size < 15 (main loop
+ * unreachable by construction of the harness), 2 = src_size > 2^32-1 (returns at the first check) */
+#if CQV_CLASS == 2
+#define CQV_REACH_SMALL(m) ((void)0)
+#define CQV_REACH_LOOP(m) ((void)0)
+#elif CQV_CLASS == 1
+#define CQV_REACH_SMALL(m) CQV_REACH(m)
+#define CQV_REACH_LOOP(m) ((void)0)
+#else
+#define CQV_REACH_SMALL(m) CQV_REACH(m)
+#define CQV_REACH_LOOP(m) CQV_REACH(m)
+#endif
+
 /* *p written as base[p - base] (see the @replace note in contracts/snappy_comp.ovl) */
 #define CQV_AT(base, p) ((base)[(size_t)((p) - (base))])
 
@@ -166,4 +179,19 @@ void h_c09_compress_oversize(void) {
   carquet_status_t st = carquet_snappy_compress(src, src_size, dst, dst_capacity, dst_size);
   CQV_CANARY("snappy_compress (oversize) returns");
   if (st == CARQUET_ERROR_COMPRESSION) CQV_CANARY("snappy_compress (oversize) refuses");
+}
+
+/* input class src_size < 15 only (single-literal path, the hash-table loop is not reached) */
+void h_c09_compress_tiny(void) {
+  const uint8_t *src = nondet_ptr();
+  uint8_t *dst = nondet_ptr();
+  size_t *dst_size = nondet_ptr();
+  size_t src_size = nondet_size_t(), dst_capacity = nondet_size_t();
+  __CPROVER_assume(src_size < 15);
+  cqv_k = nondet_size_t();
+  cqv_old_dst_k = nondet_u8();
+  carquet_status_t st = carquet_snappy_compress(src, src_size, dst, dst_capacity, dst_size);
+  CQV_CANARY("snappy_compress (tiny) returns");
+  if (st == CARQUET_OK) CQV_CANARY("snappy_compress (tiny) returns OK");
+  if (st == CARQUET_ERROR_COMPRESSION) CQV_CANARY("snappy_compress (tiny) can refuse");
 }
